@@ -576,3 +576,239 @@ func ruleSelfRec(prog *Program, rep *Report, floor int, rels ...string) {
 	rep.Rules = append(rep.Rules, "M-selfrec: among recursive functions of one signature (copies of one walk) none calls another one; a method that belongs to a family of same-signature methods that walk members by calling themselves calls its own name on the members, not a sibling's ("+strings.Join(rels, ", ")+")")
 	runSynRule(prog, rep, "M-selfrec", rels, matchSelfRec, fixtureSelfRec, 2, floor)
 }
+
+// ---------------------------------------------------------------- B-gentwins
+
+// genTwinPairs: functions of one package (same receiver) whose signatures become equal when the generic
+// container types are replaced by the simple ones (gen.Array -> []any, gen.Object -> map[string]any) and
+// that are the only such partner of each other: the copy for generic data of a function for simple data.
+func genTwinPairs(pk *Program, rel string) (pairs [][2]*ast.FuncDecl, info *types.Info) {
+	p := pk.Pkg(rel)
+	if p == nil {
+		return nil, nil
+	}
+	info = p.TypesInfo
+	norm := func(s string) string {
+		s = strings.ReplaceAll(s, "github.com/ohler55/ojg/gen.Array", "[]any")
+		s = strings.ReplaceAll(s, "github.com/ohler55/ojg/gen.Object", "map[string]any")
+		s = strings.ReplaceAll(s, "interface{}", "any")
+		return s
+	}
+	type ent struct {
+		fd  *ast.FuncDecl
+		sig string
+		raw string
+	}
+	groups := map[string][]ent{}
+	for _, f := range p.Syntax {
+		for _, d := range f.Decls {
+			fd, ok := d.(*ast.FuncDecl)
+			if !ok || fd.Body == nil {
+				continue
+			}
+			o, _ := info.Defs[fd.Name].(*types.Func)
+			if o == nil {
+				continue
+			}
+			sg := o.Type().(*types.Signature)
+			recv := ""
+			if sg.Recv() != nil {
+				recv = sg.Recv().Type().String()
+			}
+			raw := recv + "|" + sg.Params().String() + sg.Results().String()
+			groups[norm(raw)] = append(groups[norm(raw)], ent{fd, norm(raw), raw})
+		}
+	}
+	for _, g := range groups {
+		var simple, generic []ent
+		for _, e := range g {
+			if strings.Contains(e.raw, "ojg/gen.Array") || strings.Contains(e.raw, "ojg/gen.Object") {
+				generic = append(generic, e)
+			} else if strings.Contains(e.raw, "[]any") || strings.Contains(e.raw, "[]interface{}") || strings.Contains(e.raw, "map[string]any") || strings.Contains(e.raw, "map[string]interface{}") {
+				simple = append(simple, e)
+			}
+		}
+		if len(simple) == 1 && len(generic) == 1 {
+			pairs = append(pairs, [2]*ast.FuncDecl{simple[0].fd, generic[0].fd})
+		}
+	}
+	return
+}
+
+// twinBodyLines: the statements of a body, printed, with the generic container types spelled as the simple ones.
+func twinBodyLines(fd *ast.FuncDecl) []string {
+	var out []string
+	var walk func(list []ast.Stmt)
+	line := func(s string) {
+		s = strings.ReplaceAll(s, "gen.Array", "[]any")
+		s = strings.ReplaceAll(s, "gen.Object", "map[string]any")
+		s = strings.ReplaceAll(s, "interface{}", "any")
+		out = append(out, s)
+	}
+	var stmt func(s ast.Stmt)
+	stmt = func(s ast.Stmt) {
+		switch x := s.(type) {
+		case *ast.BlockStmt:
+			walk(x.List)
+		case *ast.IfStmt:
+			h := "if "
+			if x.Init != nil {
+				h += stmtString(x.Init) + "; "
+			}
+			line(h + types.ExprString(x.Cond))
+			walk(x.Body.List)
+			if x.Else != nil {
+				line("else")
+				stmt(x.Else)
+			}
+			line("end-if")
+		case *ast.ForStmt:
+			h := "for "
+			if x.Init != nil {
+				h += stmtString(x.Init)
+			}
+			h += "; "
+			if x.Cond != nil {
+				h += types.ExprString(x.Cond)
+			}
+			h += "; "
+			if x.Post != nil {
+				h += stmtString(x.Post)
+			}
+			line(h)
+			walk(x.Body.List)
+			line("end-for")
+		case *ast.RangeStmt:
+			k, v := "_", "_"
+			if x.Key != nil {
+				k = types.ExprString(x.Key)
+			}
+			if x.Value != nil {
+				v = types.ExprString(x.Value)
+			}
+			line("range " + k + ", " + v + " " + x.Tok.String() + " " + types.ExprString(x.X))
+			walk(x.Body.List)
+			line("end-range")
+		case *ast.SwitchStmt:
+			h := "switch "
+			if x.Tag != nil {
+				h += types.ExprString(x.Tag)
+			}
+			line(h)
+			walk(x.Body.List)
+			line("end-switch")
+		case *ast.TypeSwitchStmt:
+			line("typeswitch " + stmtString(x.Assign))
+			walk(x.Body.List)
+			line("end-switch")
+		case *ast.CaseClause:
+			var l []string
+			for _, e := range x.List {
+				l = append(l, types.ExprString(e))
+			}
+			line("case " + strings.Join(l, ", "))
+			walk(x.Body)
+		case *ast.LabeledStmt:
+			line("label " + x.Label.Name)
+			stmt(x.Stmt)
+		default:
+			line(stmtString(s))
+		}
+	}
+	walk = func(list []ast.Stmt) {
+		for _, s := range list {
+			stmt(s)
+		}
+	}
+	walk(fd.Body.List)
+	return out
+}
+
+func stmtString(s ast.Stmt) string {
+	switch x := s.(type) {
+	case *ast.AssignStmt:
+		var l, r []string
+		for _, e := range x.Lhs {
+			l = append(l, types.ExprString(e))
+		}
+		for _, e := range x.Rhs {
+			r = append(r, types.ExprString(e))
+		}
+		return strings.Join(l, ", ") + " " + x.Tok.String() + " " + strings.Join(r, ", ")
+	case *ast.ExprStmt:
+		return types.ExprString(x.X)
+	case *ast.IncDecStmt:
+		return types.ExprString(x.X) + x.Tok.String()
+	case *ast.ReturnStmt:
+		var r []string
+		for _, e := range x.Results {
+			r = append(r, types.ExprString(e))
+		}
+		return "return " + strings.Join(r, ", ")
+	case *ast.BranchStmt:
+		if x.Label != nil {
+			return x.Tok.String() + " " + x.Label.Name
+		}
+		return x.Tok.String()
+	case *ast.DeclStmt:
+		if gd, ok := x.Decl.(*ast.GenDecl); ok {
+			var parts []string
+			for _, sp := range gd.Specs {
+				if vs, ok := sp.(*ast.ValueSpec); ok {
+					var n []string
+					for _, id := range vs.Names {
+						n = append(n, id.Name)
+					}
+					t := ""
+					if vs.Type != nil {
+						t = " " + types.ExprString(vs.Type)
+					}
+					var v []string
+					for _, e := range vs.Values {
+						v = append(v, types.ExprString(e))
+					}
+					parts = append(parts, "var "+strings.Join(n, ", ")+t+" = "+strings.Join(v, ", "))
+				}
+			}
+			return strings.Join(parts, "; ")
+		}
+	case *ast.DeferStmt:
+		return "defer " + types.ExprString(x.Call)
+	case *ast.GoStmt:
+		return "go " + types.ExprString(x.Call)
+	case *ast.SendStmt:
+		return types.ExprString(x.Chan) + " <- " + types.ExprString(x.Value)
+	}
+	return fmt.Sprintf("%T", s)
+}
+
+// genTwinAccepted: pairs whose bodies differ today, with the difference that was read.
+var genTwinAccepted = map[string][2]string{}
+
+// ruleGenTwins: B-gentwins.
+func ruleGenTwins(prog *Program, rep *Report, floor int, rels ...string) {
+	rep.Rules = append(rep.Rules, "B-gentwins: a function for simple containers ([]any, map[string]any) and the function of the same package and receiver whose signature differs only in taking the generic counterpart (gen.Array, gen.Object) have the same statements once the container types are spelled alike, or the pair is listed with the difference that was read ("+strings.Join(rels, ", ")+")")
+	n := 0
+	for _, rel := range rels {
+		pairs, _ := genTwinPairs(prog, rel)
+		for _, pr := range pairs {
+			a, b := twinBodyLines(pr[0]), twinBodyLines(pr[1])
+			n++
+			key := fmt.Sprintf("%s.%s=%s", rel, pr[0].Name.Name, pr[1].Name.Name)
+			if strings.Join(a, "\n") == strings.Join(b, "\n") {
+				rep.Discharge("B-gentwins", key, prog.Pos(pr[0].Pos()), fmt.Sprintf("%d statements equal", len(a)))
+				continue
+			}
+			onlyA, onlyB := diffLines(a, b)
+			if acc, ok := genTwinAccepted[key]; ok && acc[0] == strings.Join(onlyA, " | ")+" // "+strings.Join(onlyB, " | ") {
+				rep.Discharge("B-gentwins", key, prog.Pos(pr[0].Pos()), "accepted difference (read): "+acc[1])
+				continue
+			}
+			rep.Violate(Finding{Rule: "B-gentwins", Key: key, Pos: prog.Pos(pr[1].Pos()), Msg: fmt.Sprintf("%s and its copy for generic data %s differ: only in the first [%s]; only in the copy [%s]", pr[0].Name.Name, pr[1].Name.Name, strings.Join(onlyA, " | "), strings.Join(onlyB, " | "))})
+		}
+	}
+	rep.Eval(n)
+	if n < floor {
+		rep.Errorf("B-gentwins compared %d pairs (floor %d): anchors did not resolve", n, floor)
+	}
+}
